@@ -165,6 +165,38 @@ theorem codec_blocks_tail {β : Type} (dec : Codec.Dec β) : ∀ (fuel : Nat) (b
       · cases h
       · cases h; exact Or.inr rfl
 
+/-- provenance of an `unmodelled` answer of the packet loop: with fuel beyond the
+    input length and packet decodes that consume at least one byte, the loop itself
+    never gives up — one packet decode (typed, or generic after a typed error) did -/
+theorem blocks_unmodelled_provenance {β : Type} (dec : Codec.Dec β)
+    (hprog : ∀ b x r, dec b = .ok (x, r) → r.length < b.length) :
+    ∀ (fuel : Nat) (b : Bytes) (w : String), b.length < fuel → Codec.blocks dec fuel b = .error w →
+      ∃ b' : Bytes, b'.length ≤ b.length ∧
+        (dec b' = .error (.unmodelled w) ∨ (∃ why, dec b' = .error (.err why)) ∧ Codec.generic b' = .error (.unmodelled w))
+  | 0, b, w, hf, _ => by omega
+  | fuel + 1, b, w, hf, h => by
+    unfold Codec.blocks at h
+    split at h
+    · rename_i x rest hd
+      split at h
+      · cases h
+      · rename_i w' hrec
+        cases h
+        have := hprog _ _ _ hd
+        obtain ⟨b', hl, hb'⟩ := blocks_unmodelled_provenance dec hprog fuel rest w (by omega) hrec
+        exact ⟨b', by omega, hb'⟩
+    · cases h
+    · rename_i w' hd
+      cases h
+      exact ⟨b, Nat.le_refl _, Or.inl hd⟩
+    · rename_i why hd
+      split at h
+      · cases h
+      · rename_i w' hg
+        cases h
+        exact ⟨b, Nat.le_refl _, Or.inr ⟨⟨why, hd⟩, hg⟩⟩
+      · cases h
+
 theorem codec_split_tail {η β : Type} (decH : Codec.Dec η) (decB : η → Option (Codec.Dec β))
     (msg : Bytes) (hr : HeaderRead η) (ps : PStream β)
     (h : Codec.split decH decB msg = .ok (hr, ps)) : TailPlain ps.tail := by
